@@ -323,6 +323,21 @@ func runC11(c *Ctx) {
 					c11Check(u, fn, args)
 				}
 			}
+			// marks on two arguments at once (a positional and a variadic one, two variadic ones)
+			for i := 0; i < len(base); i++ {
+				for j := i + 1; j < len(base); j++ {
+					args := append([]cty.Value(nil), base...)
+					args[i], args[j] = base[i].Mark(markM1), base[j].Mark(markM2)
+					u.DistinctN(1)
+					c11Check(u, fn, args)
+					if nested := injectNested(base[i], false); len(nested) > 0 {
+						args2 := append([]cty.Value(nil), base...)
+						args2[i], args2[j] = nested[len(nested)-1], base[j].Mark(markM2)
+						u.DistinctN(1)
+						c11Check(u, fn, args2)
+					}
+				}
+			}
 			if c.Thorough && len(base) >= 2 {
 				for i := 0; i < len(base); i++ {
 					for j := i + 1; j < len(base); j++ {
